@@ -47,6 +47,16 @@ def r121(prog, rep, R121):
             if c.d.endswith("::blocksz") or c.d.endswith("::blocksz_at_blockoffset"):
                 seeds.add(c.dest[0])
         taint = forward_taint(b, seeds)
+        # a block length stays a block length through max/min/clamp and conversions
+        grew = True
+        while grew:
+            n_t = len(taint)
+            for c in b.live_calls():
+                if c.dest and c.dest[0] not in taint and (c.o or c.d).split("::")[-1] in ("max", "min", "clamp", "into", "from", "try_into", "unwrap", "saturating_sub", "saturating_add") \
+                        and any(a[0] in ("cp", "mv") and a[1][0] in taint for a in c.args):
+                    taint.add(c.dest[0])
+            taint = forward_taint(b, taint)
+            grew = len(taint) != n_t
         lookups = [c for c in b.live_calls() if "RangeMap" in c.d and c.d.endswith("::get")]
         flagged = False
         for c in lookups:
@@ -96,11 +106,29 @@ def r121(prog, rep, R121):
                                 ents.append("%s..%s=%s" % (rng[0] if rng else "?", ("max" if rng and rng[1] == 18446744073709551615 else rng[1]) if len(rng) > 1 else "?", ic.args[2][2]))
                         if ents:
                             sig = ",".join(ents)
-            rep.examined(R121, "%s|lookup" % p, sample={"fn": p.split("::")[-1], "lookup": c.f[:80], "key_from_block_length": key_tainted, "value_decides_a_branch": decides})
+            # what else the lookup key is computed from (a key of max(block length, file size) selects
+            # differently from the block length alone and is a different finding)
+            extra = set()
+            seen_k, work_k = set(), [a for a in c.args[1:] if a[0] != "k"]
+            while work_k and len(seen_k) < 40:
+                cur_k = work_k.pop()
+                for o_k in b.origins(cur_k):
+                    if o_k[0] == "call" and o_k[1] not in seen_k:
+                        seen_k.add(o_k[1])
+                        ck = [z for z in b.calls if z.bb == o_k[1]][0]
+                        nk = (ck.o or ck.d).split("::")[-1]
+                        if nk in ("len", "blocksz", "blocksz_at_blockoffset"):
+                            continue        # the block length itself; where the block came from is not part of the key
+                        if nk not in ("deref", "as_ref", "clone", "into", "from", "try_into", "unwrap"):
+                            extra.add(nk)
+                        work_k.extend(a for a in ck.args if a[0] != "k")
+            extra_s = ("|key+" + ",".join(sorted(extra))) if extra else ""
+            rep.examined(R121, "%s|lookup" % p, sample={"fn": p.split("::")[-1], "lookup": c.f[:80], "key_from_block_length": key_tainted, "key_also_from": sorted(extra), "value_decides_a_branch": decides})
             if decides:
                 flagged = True
-                rep.violation(R121, "%s|threshold-by-block-length|%s" % (p, sig),
-                              "%s: the minimum count that decides whether the file is accepted is looked up by the length of block zero (table %s); the same file is accepted at one --blocksz and rejected at another" % (p, sig))
+                rep.violation(R121, "%s|threshold-by-block-length|%s%s" % (p, sig, extra_s),
+                              "%s: the minimum count that decides whether the file is accepted is looked up by the length of block zero%s (table %s); the same file is accepted at one --blocksz and rejected at another" % (
+                                  p, (" combined with " + ", ".join(sorted(extra)) + "()") if extra else "", sig))
         mins = [c for c in b.live_calls() if c.d.endswith("cmp::min") or c.o.endswith("Ord::min")]
         if not lookups:
             rep.examined(R121, "%s|no-lookup" % p, sample={"fn": p.split("::")[-1], "range_lookups": 0, "min_calls": len(mins)})
@@ -193,9 +221,11 @@ def run(prog, rep, tier):
     # ------------------------------------------------------------ R12.2 (lifted)
     s5 = _sub(prog, rep, c05, "C05")
     for (rid, key, what, detail) in s5.violations:
-        if rid in ("R5.1", "R5.1b", "R5.1c", "R5.2", "R5.8"):
+        if rid in ("R5.1", "R5.1b", "R5.1c", "R5.2", "R5.8", "R5.4"):
             rep.violation(R122, key.split("|", 1)[1], what)
-    for rid in ("R5.1", "R5.1b", "R5.2", "R5.8"):
+    # R5.4: whether blocks of a streamed accounting file survive the reader's repeated passes depends on how many
+    # blocks the file has, i.e. on the block size
+    for rid in ("R5.1", "R5.1b", "R5.2", "R5.8", "R5.4"):
         for s in s5.rules.get(rid, {}).get("samples", []):
             rep.examined(R122, "%s|%s" % (rid, str(s)[:60]), sample=s)
     s2 = _sub(prog, rep, c02, "C02")
